@@ -4,6 +4,8 @@ package registry_test
 
 import (
 	"bytes"
+	"database/sql"
+	"encoding/binary"
 	"encoding/hex"
 	"fmt"
 	"path/filepath"
@@ -57,18 +59,25 @@ func TestVerifC20(t *testing.T) {
 	// thorough tier: after the generated cases, every sequence of <= enumLen ops over the
 	// alphabet {Put(k in 0..1, rev in 0..2), SetLimit 0..2} (small-scope exhaustive search)
 	enumLen := verifEnvInt("VERIF_C20_ENUM", 0)
-	const alpha = 9
+	const alpha = 10
+	const directed = 3 // ids 0..2
 	enumTotal := 0
 	for l, p := 1, alpha; l <= enumLen; l, p = l+1, p*alpha {
 		enumTotal += p
 	}
-	for id := 0; id < n+1+enumTotal; id++ {
+	for id := 0; id < n+directed+enumTotal; id++ {
 		if em.Skip(id) {
 			continue
 		}
 		rng := verifCaseRand(id)
 		log := zap.NewNop()
-		db, err := sqlite.OpenDatabase(filepath.Join(t.TempDir(), fmt.Sprintf("c20_%d.db", id)), log)
+		dbPath := filepath.Join(t.TempDir(), fmt.Sprintf("c20_%d.db", id))
+		db, err := sqlite.OpenDatabase(dbPath, log)
+		if err != nil {
+			t.Fatal(err)
+		}
+		// the harness's own connection: the expiration_height column has no accessor
+		raw, err := sql.Open("sqlite3", "file:"+dbPath+"?_busy_timeout=5000&_journal_mode=WAL")
 		if err != nil {
 			t.Fatal(err)
 		}
@@ -96,6 +105,7 @@ func TestVerifC20(t *testing.T) {
 
 		em.BeginCase(id, "registry history")
 		shadow := map[int]string{} // reference spec: last accepted entry per key
+		shadowExp := map[int]uint64{} // and the expiration height passed with it
 		lowered := false
 		curLimit := uint64(0)
 
@@ -140,6 +150,28 @@ func TestVerifC20(t *testing.T) {
 		}
 		keyOf := func(k int) rhp3.RegistryKey {
 			return rhp3.RegistryKey{PublicKey: renters[k/2].PublicKey(), Tweak: tweaks[k%2]}
+		}
+		// the stored expiration_height of key k (8-byte little-endian blob)
+		expOf := func(k int) {
+			kh := keyOf(k)
+			h := kh.Hash()
+			var blob []byte
+			err := raw.QueryRow(`SELECT expiration_height FROM registry_entries WHERE registry_key=$1`, h[:]).Scan(&blob)
+			got, have := uint64(0), false
+			if err == nil && len(blob) == 8 {
+				got, have = binary.LittleEndian.Uint64(blob), true
+			} else if err != sql.ErrNoRows {
+				t.Fatalf("expiration_height of key %d: %v (%d bytes)", k, err, len(blob))
+			}
+			obs := "OExp None"
+			if have {
+				obs = fmt.Sprintf("OExp (Some %d%%N)", got)
+			}
+			em.Step(fmt.Sprintf("Exp %d", k), obs)
+			want, ok := shadowExp[k]
+			if ok != have || want != got {
+				em.Monitor("expiration-height-differs-from-last-accepted", fmt.Sprintf("key %d stored %d (%v) want %d (%v)", k, got, have, want, ok))
+			}
 		}
 		get := func(k int) rhp3.RegistryValue {
 			v, err := reg.Get(keyOf(k))
@@ -200,11 +232,15 @@ func TestVerifC20(t *testing.T) {
 				tie = rhp3.ValidateRegistryUpdate(rhp3.RegistryEntry{RegistryKey: key, RegistryValue: old}, e, hostID) == nil
 			}
 			cntBefore, limBefore, _ := reg.Entries()
-			ret, err := reg.Put(e, uint64(90+rng.Intn(40))) // expiration heights around the tips of `tip` below
+			exp := uint64(90 + rng.Intn(40)) // expiration heights around the tips of `tip` below
+			if rng.Intn(16) == 0 {
+				exp = []uint64{0, 1<<63 - 1, 1 << 63, ^uint64(0)}[rng.Intn(4)]
+			}
+			ret, err := reg.Put(e, exp)
 			if err == nil && !hasOld && cntBefore >= limBefore {
 				em.Monitor("insert-accepted-without-room", fmt.Sprintf("new key %d accepted with count %d >= limit %d", k, cntBefore, limBefore))
 			}
-			em.Step(fmt.Sprintf("Put %d %s %s %s", k, entryOf(e.RegistryValue), coqBool(valid), coqBool(tie)),
+			em.Step(fmt.Sprintf("Put %d %s %d %s %s", k, entryOf(e.RegistryValue), exp, coqBool(valid), coqBool(tie)),
 				fmt.Sprintf("OPut %s %s", coqBool(err == nil), vidOf(ret)))
 			em.Count("op:Put")
 			em.Count(fmt.Sprintf("put:valid=%v,stored=%v,accepted=%v", valid, hasOld, err == nil))
@@ -217,6 +253,7 @@ func TestVerifC20(t *testing.T) {
 					em.Monitor("accepted-non-superseding-update", fmt.Sprintf("key %d old rev %d new rev %d", k, old.Revision, e.Revision))
 				}
 				shadow[k] = vidOf(e.RegistryValue)
+				shadowExp[k] = exp
 			} else if hasOld && valid && vidOf(ret) != vidOf(old) {
 				em.Monitor("rejected-update-did-not-return-stored-entry", fmt.Sprintf("key %d", k))
 			}
@@ -272,7 +309,7 @@ func TestVerifC20(t *testing.T) {
 				if has {
 					tie = rhp3.ValidateRegistryUpdate(rhp3.RegistryEntry{RegistryKey: key, RegistryValue: stored}, e, hostID) == nil
 				}
-				em.Step(fmt.Sprintf("Put %d %s true %s", k, entryOf(e.RegistryValue), coqBool(tie)),
+				em.Step(fmt.Sprintf("Put %d %s 100 true %s", k, entryOf(e.RegistryValue), coqBool(tie)),
 					fmt.Sprintf("OPut %s %s", coqBool(r.err == nil), vidOf(r.ret)))
 				if r.err == nil {
 					if has && !tie {
@@ -280,6 +317,7 @@ func TestVerifC20(t *testing.T) {
 					}
 					stored, has = e.RegistryValue, true
 					shadow[k] = vidOf(e.RegistryValue)
+					shadowExp[k] = 100
 				}
 			}
 			em.Count("op:RacePut")
@@ -305,16 +343,65 @@ func TestVerifC20(t *testing.T) {
 				e := rhp3.RegistryEntry{RegistryKey: keyOf(k), RegistryValue: rhp3.RegistryValue{Revision: 1, Type: rhp3.EntryTypeArbitrary, Data: []byte{1}}}
 				e.Signature = renters[k/2].SignHash(e.Hash())
 				ret, err := reg.Put(e, 100)
-				em.Step(fmt.Sprintf("Put %d %s true false", k, entryOf(e.RegistryValue)), fmt.Sprintf("OPut %s %s", coqBool(err == nil), vidOf(ret)))
+				em.Step(fmt.Sprintf("Put %d %s 100 true false", k, entryOf(e.RegistryValue)), fmt.Sprintf("OPut %s %s", coqBool(err == nil), vidOf(ret)))
 				if err == nil {
 					shadow[k] = vidOf(e.RegistryValue)
+					shadowExp[k] = 100
 				}
 			}
 			setLimit(1)
 			info()
-		} else if id > n {
-			// decode id-n-1 into a sequence over the alphabet
-			e := id - n - 1
+		} else if id == 1 || id == 2 {
+			// directed: the tip beyond every expiration height.  Nothing is dropped, hidden or
+			// uncounted; a superseding update whose own expiration height is already below the
+			// tip is accepted; a full registry stays full although every entry is past its height.
+			dput := func(k int, rev uint64, d byte, exp uint64) {
+				e := rhp3.RegistryEntry{RegistryKey: keyOf(k), RegistryValue: rhp3.RegistryValue{Revision: rev, Type: rhp3.EntryTypeArbitrary, Data: []byte{d}}}
+				e.Signature = renters[k/2].SignHash(e.Hash())
+				tie := false
+				old, gerr := reg.Get(e.RegistryKey)
+				if gerr == nil {
+					tie = rhp3.ValidateRegistryUpdate(rhp3.RegistryEntry{RegistryKey: e.RegistryKey, RegistryValue: old}, e, hostID) == nil
+				}
+				ret, err := reg.Put(e, exp)
+				em.Step(fmt.Sprintf("Put %d %s %d true %s", k, entryOf(e.RegistryValue), exp, coqBool(tie)), fmt.Sprintf("OPut %s %s", coqBool(err == nil), vidOf(ret)))
+				if err == nil {
+					shadow[k] = vidOf(e.RegistryValue)
+					shadowExp[k] = exp
+				}
+			}
+			all := func() {
+				for k := 0; k < 4; k++ {
+					get(k)
+					expOf(k)
+				}
+				info()
+			}
+			setLimit(3)
+			dput(0, 1, 1, 100)
+			dput(1, 1, 2, 110)
+			dput(2, 1, 3, 120)
+			all()
+			heights := []uint64{121, 1 << 40}
+			if id == 2 {
+				heights = []uint64{100, 119, 120, 52560 + 200, 1<<63 - 1}
+			}
+			for _, h := range heights {
+				tip(h)
+				all()
+				dput(3, 1, 9, h+10) // no room although every stored entry is past its height
+				dput(0, 0, 7, h+10) // stale
+				all()
+			}
+			dput(0, 2, 8, 50) // accepted with an expiration height that has long passed
+			all()
+			if id == 2 {
+				tip(0) // the tip moves back (reorg to a shorter chain index)
+				all()
+			}
+		} else if id >= n+directed {
+			// decode id-n-directed into a sequence over the alphabet
+			e := id - n - directed
 			l, p := 1, alpha
 			for e >= p {
 				e -= p
@@ -335,16 +422,21 @@ func TestVerifC20(t *testing.T) {
 						tie = rhp3.ValidateRegistryUpdate(rhp3.RegistryEntry{RegistryKey: ent.RegistryKey, RegistryValue: old}, ent, hostID) == nil
 					}
 					ret, err := reg.Put(ent, 100)
-					em.Step(fmt.Sprintf("Put %d %s true %s", k, entryOf(ent.RegistryValue), coqBool(tie)), fmt.Sprintf("OPut %s %s", coqBool(err == nil), vidOf(ret)))
+					em.Step(fmt.Sprintf("Put %d %s 100 true %s", k, entryOf(ent.RegistryValue), coqBool(tie)), fmt.Sprintf("OPut %s %s", coqBool(err == nil), vidOf(ret)))
 					if err == nil {
 						if gerr == nil && !tie {
 							em.Monitor("accepted-non-superseding-update", fmt.Sprintf("key %d", k))
 						}
 						shadow[k] = vidOf(ent.RegistryValue)
+						shadowExp[k] = 100
 					}
 					get(k)
-				} else {
+				} else if a < 9 {
 					setLimit(uint64(a - 6))
+				} else {
+					tip(200) // beyond the expiration height of every enumerated Put
+					get(0)
+					get(1)
 				}
 				info()
 			}
@@ -359,6 +451,7 @@ func TestVerifC20(t *testing.T) {
 					k := rng.Intn(4)
 					put(k)
 					get(k)
+					expOf(k)
 					info()
 				case r < 14 && id%4 == 1:
 					k := rng.Intn(4)
@@ -375,6 +468,7 @@ func TestVerifC20(t *testing.T) {
 					tip(uint64(80 + rng.Intn(70)))
 					for k := 0; k < 4; k++ {
 						get(k)
+						expOf(k)
 					}
 					info()
 				default:
@@ -384,6 +478,7 @@ func TestVerifC20(t *testing.T) {
 			}
 			for k := 0; k < 4; k++ {
 				get(k)
+				expOf(k)
 			}
 			info()
 		}
@@ -397,6 +492,7 @@ func TestVerifC20(t *testing.T) {
 			reg.Close()
 		}()
 		em.EndCase(len(shadow) > 0)
+		raw.Close()
 		db.Close()
 	}
 }
